@@ -181,6 +181,9 @@ func runC13(w *fw.Worker) {
 		{pt.If{Conds: []pt.Expr{pt.Bin(">=", pt.C("len", pt.V("errmsg")), pt.N(4))}, Blocks: [][]pt.Stmt{{pt.Print(pt.S("cp"), pt.Index{X: pt.V("errmsg"), I: pt.N(0)}, pt.Index{X: pt.V("errmsg"), I: pt.N(-1)},
 			pt.Slice{X: pt.V("errmsg"), Lo: pt.N(1), Hi: pt.N(4)}, pt.C("len", pt.V("errmsg")))}}, Else: []pt.Stmt{pt.Print(pt.S("cp-short"), pt.Slice{X: pt.V("errmsg")})}},
 			pt.For{Var: "c", Range: []pt.Expr{pt.V("errmsg")}, Body: []pt.Stmt{pt.If{Conds: []pt.Expr{pt.Bin("==", pt.V("c"), pt.S("\""))}, Blocks: [][]pt.Stmt{{pt.Print(pt.S("quote"))}}}}}},
+		// call arguments are evaluated left to right and keep their value: err / errmsg before a conversion in the same argument list
+		{pt.Print(pt.S("args"), pt.V("err"), pt.V("errmsg"), pt.C("str2num", pt.S("7")), pt.V("err"), pt.V("errmsg"), pt.C("str2bool", pt.S("nope")), pt.V("err"), pt.V("errmsg")),
+			pt.Print(pt.S("args2"), pt.C("sprint", pt.V("errmsg"), pt.S("/"), pt.C("str2num", pt.S("8")), pt.S("/"), pt.V("errmsg")), pt.A(pt.V("err"), pt.C("str2bool", pt.S("x")), pt.V("err")))},
 		// operands are evaluated left to right: err / errmsg on the left keep the value they had
 		{pt.Print(pt.S("lr"), pt.Group{X: pt.Bin("==", pt.V("err"), pt.C("str2bool", pt.S("maybe")))}, pt.Group{X: pt.Bin("+", pt.V("errmsg"), pt.C("sprint", pt.C("str2num", pt.S("7"))))})},
 	}
